@@ -1367,6 +1367,24 @@ struct Explorer {
     const Variant* v = VariantOf(sc, after);
     set<string> started;
     for (auto& c : r.cmds) for (auto& o : c.spec.outs) started.insert(o);
+    // every command that completed successfully in this invocation is on record afterwards (whatever
+    // ninja did to the log file in between: closing it around a generator statement, recompacting)
+    if (!op.tool && fa) {
+      bool interrupted = false;
+      for (auto& e : r.events) if (e.kind == Event::kInterrupt) interrupted = true;
+      for (auto& c : r.cmds) {
+        if (!c.finished || c.status != 0 || interrupted) continue;
+        if (r.cmds.back().cycle != c.cycle) continue;   // before a manifest regeneration: other statements
+        for (auto& o : c.spec.outs) {
+          if (b1.entries.count(o)) continue;
+          Violation x; x.prop = "C08"; x.clause = "completed-command-not-recorded";
+          x.detail = "'" + op.label + "': '" + o + "' was built successfully but the build log has no record of it afterwards";
+          x.facts.set("output", o);
+          out->push_back(x);
+          return;
+        }
+      }
+    }
     for (auto& kv : b0.entries) {
       const string& path = kv.first;
       bool in_manifest = v && v->producer.count(path) && !v->stmts[v->producer.at(path)].phony;
